@@ -34,6 +34,7 @@ class FnSpec:
         self.after_call = {}
         self.replace = []
         self.unwind = []       # (loopid, n, kind) kind in complete|bounded
+        self.unwind_all = None # (bound 'Q/T', kind): every loop without a loop contract
         self.harness = None
         self.harness_decls = None
         self.reachable = []
@@ -51,6 +52,8 @@ class FnSpec:
         self.line = 0
         self.timeout = None
         self.covers = True
+        self.cover_thorough_only = False
+        self.split = 1
         self.solver = None
 
 
@@ -240,6 +243,9 @@ def parse(u, path):
             # unwind <function>.<loop>:<n> complete|bounded
             parts = rest.split()
             cur.unwind.append((parts[0], parts[1] if len(parts) > 1 else 'bounded'))
+        elif kw == 'unwind-all':
+            parts = rest.split()
+            cur.unwind_all = (parts[0], parts[1] if len(parts) > 1 else 'bounded')
         elif kw == 'bounded':
             cur.bounded = rest
         elif kw == 'harness':
@@ -266,6 +272,10 @@ def parse(u, path):
             cur.check = False
         elif kw == 'nocover':
             cur.covers = False
+        elif kw == 'split':
+            cur.split = int(rest)
+        elif kw == 'cover-thorough-only':
+            cur.cover_thorough_only = True
         elif kw == 'timeout':
             cur.timeout = int(rest)
         elif kw == 'solver':
